@@ -260,6 +260,10 @@ def ops() -> Dict[str, Tuple[Tuple[str, ...], Callable]]:
     add("ctor_copy_tm", ("tenmat",), lambda o, m: ttb.tenmat(o.data, o.rindices, o.cindices, o.tshape))
     add("ctor_copy_sm", ("sptenmat",), lambda o, m: ttb.sptenmat(o.subs, o.vals, o.rdims, o.cdims, o.tshape))
     add("ctor_nocopy", ("dense",), lambda o, m: ttb.tensor(o.data, o.shape, copy=False))
+    # generators fed with the caller's arrays: the result owns its storage
+    add("sptendiag_of", ("slab",), lambda o, m: ttb.sptendiag(m.vec(3), (3, 3)))
+    add("sptendiag_col", ("slab",), lambda o, m: ttb.sptendiag(m.reg(np.array([[1.0], [2.0], [4.0]])), (3, 3, 3)))
+    add("tendiag_of", ("slab",), lambda o, m: ttb.tendiag(m.vec(3), (3, 3)))
     add("aggregator", ("sparse",), lambda o, m: ttb.sptensor.from_aggregator(o.subs, o.vals, o.shape))
     add("sum_add", ("sum",), lambda o, m: o + m.dense(o.shape))
     add("sum_radd", ("sum",), lambda o, m: m.dense(o.shape) + o)
